@@ -12,7 +12,7 @@ for s in $ids; do
   for c in $checks; do
     bin/check $c --tier quick > $out/$s.$c.log 2>&1; echo "$s $c $?" >> $out/results.txt
   done
-  git -C /repo checkout -- .
+  git -C /repo checkout -- . && git -C /repo clean -fdq
   echo "$s: caught by: $(grep "^$s " $out/results.txt | awk '$3!=0{print $2}' | tr '\n' ' ')"
 done
 python3 - $out/results.txt <<'PY'
